@@ -30,6 +30,7 @@ def main():
                 shutil.copy(os.path.join(root, f), dst); demos.append(dst)
         seedroot = os.path.dirname(os.path.dirname(os.path.abspath(src)))
         cmd = meta["demo_cmd"].replace("$PWD", wt).replace(seedroot, wt).replace("<worktree>", wt).replace("<repo>", wt)
+        cmd = re.sub(r"/tmp/seed2?/C\d\d(?![\w-])", wt, cmd)  # the seeding agent's own worktree, long gone
         cmd = re.split(r"\s{2,}\(", cmd)[0]          # some agents append prose in parentheses after the command
         rc0, o0 = sh(cmd, cwd=wt)
         out["demo_without_patch"] = "pass" if rc0 == 0 else "FAIL"
@@ -60,9 +61,11 @@ def main():
         shutil.rmtree(wt, ignore_errors=True)
     d = os.path.join("/verif/seeded", dest)
     os.makedirs(d, exist_ok=True)
-    shutil.copy(os.path.join(src, "patch.diff"), os.path.join(d, "patch.diff"))
-    if os.path.isdir(os.path.join(d, "demo")): shutil.rmtree(os.path.join(d, "demo"))
-    shutil.copytree(os.path.join(src, "demo"), os.path.join(d, "demo"))
+    if os.path.realpath(src) != os.path.realpath(d):       # (re-evaluating a kept seed: nothing to copy)
+        shutil.copy(os.path.join(src, "patch.diff"), os.path.join(d, "patch.diff"))
+        if os.path.isdir(os.path.join(d, "demo")): shutil.rmtree(os.path.join(d, "demo"))
+        shutil.copytree(os.path.join(src, "demo"), os.path.join(d, "demo"))
+    meta.pop("confirmed", None)
     meta["confirmed"] = out
     json.dump(meta, open(os.path.join(d, "meta.json"), "w"), indent=1)
     print(json.dumps(out, indent=1))
